@@ -66,7 +66,13 @@ def deep(obj, depth=0, skip=("_logger",)):
     if hasattr(obj, "pattern") and hasattr(obj, "match"):
         return ("regex", obj.pattern)
     if hasattr(obj, "__dict__"):
-        return (type(obj).__name__, [(k, deep(v, depth + 1)) for k, v in sorted(obj.__dict__.items()) if k not in skip])
+        items = dict(obj.__dict__)
+        # containers that live on the class (a dict or list in a class body is shared by every instance, copies included)
+        for klass in type(obj).__mro__:
+            for k, v in vars(klass).items():
+                if isinstance(v, (dict, list, set)) and not k.startswith("__") and k not in items:
+                    items["<class>." + k] = v
+        return (type(obj).__name__, [(k, deep(v, depth + 1)) for k, v in sorted(items.items()) if k not in skip])
     return repr(obj)
 
 
